@@ -132,7 +132,13 @@ def gen_omega_case(rng):
     for i in range(n):
         for j in range(i + 1):
             newcov.append(round(new_sds[i] ** 2, 12) if i == j else round(meta["corr"][i][j] * new_sds[i] * new_sds[j], 12))
-    return {"kind": "omega", "rec": txt, "size": n, "newcov": newcov, "seed": rng.randrange(1 << 30)}
+    # fixedness after each successive update: unfix / fix / unfix sequences on the block
+    fixseq = [rng.random() < 0.5 for _ in range(rng.choice([1, 2, 3]))]
+    if rng.random() < 0.5:
+        fixseq = [not meta["fix"], meta["fix"], not meta["fix"]][:rng.choice([1, 2, 3])]
+    same_values = rng.random() < 0.3
+    return {"kind": "omega", "rec": txt, "size": n, "newcov": newcov, "fixseq": fixseq, "same_values": same_values,
+            "seed": rng.randrange(1 << 30)}
 
 
 def gen_diag_case(rng):
@@ -194,6 +200,10 @@ def corpus_cases():
         {"kind": "theta", "rec": "$THETA (-INF,3,INF) 2 ; x\n", "edits": [[{"init": 2.0}, {}]], "remove": [1], "seed": 8},
         # split-xn path of the diagonal omega update: FIX removed where it agrees, inserted where it differs
         {"kind": "diag", "rec": "$OMEGA (0.1 FIX)x2\n", "edits": [[{}, {"init": 0.25}]], "remove": [], "seed": 9},
+        # FIX tied to an init of a BLOCK (not on the header) and the block is unfixed / fixed again
+        {"kind": "omega", "rec": "$OMEGA BLOCK(2)\n0.1\n0.01 (0.2 FIX)\n", "size": 2, "newcov": [0.1, 0.01, 0.2], "fixseq": [False, True, False], "same_values": True, "seed": 12},
+        {"kind": "omega", "rec": "$SIGMA BLOCK(2) SD\n(FIX 0.1)\n0.001 0.2 ; RUV_X\n", "size": 2, "newcov": [0.04, 0.002, 0.09], "fixseq": [False], "same_values": False, "seed": 13},
+        {"kind": "omega", "rec": "$OMEGA FIX BLOCK(2) 0.1 0.01 0.2 FIX\n", "size": 2, "newcov": [0.1, 0.01, 0.2], "fixseq": [False], "same_values": True, "seed": 14},
         {"kind": "diag", "rec": "$OMEGA (0.1)x2 0.3\n", "edits": [[{"fix": True}, {}, {}]], "remove": [], "seed": 10},
         {"kind": "diag", "rec": "$OMEGA DIAG(3) 0.1 0.2 SD 0.3 ; c\n", "edits": [[{}, {"init": 0.09}, {}]], "remove": [2], "seed": 11},
     ] + c04_api.corpus_cases()
@@ -217,6 +227,16 @@ def shrink(case):
                     c["edits"] = [list(map(dict, v)) for v in case["edits"]]
                     del c["edits"][vi][pi][key]
                     yield c
+    elif case["kind"] == "omega":
+        if len(case.get("fixseq", [])) > 1:
+            for i in range(len(case["fixseq"])):
+                c = dict(case)
+                c["fixseq"] = case["fixseq"][:i] + case["fixseq"][i + 1:]
+                yield c
+        if not case.get("same_values"):
+            c = dict(case)
+            c["same_values"] = True
+            yield c
     elif case["kind"] == "diag":
         for i in range(len(case["edits"])):
             if len(case["edits"]) > 1:
@@ -382,6 +402,9 @@ def classify_update(facts, old_ps, new_ps):
         return "theta-inner-comment-edit"
     if facts["trailing_comma"]:
         return "theta-trailing-comma-edit"
+    if facts["up"] is not None and facts["up"].upper() in ("INF", "1000000") and new_ps[0][2] == INF \
+            and old_ps[0][1] > -INF and new_ps[0][1] == -INF:
+        return "theta-explicit-inf-upper-kept"
     if facts["rpar_adjacent"] and new_ps[0][1] > -1e6 and new_ps[0][2] == INF:
         return "theta-low-init-rpar-adjacent"
     return None
@@ -560,7 +583,11 @@ def _monitor_update(case, rec, facts, old, new, upd, drv, k, mon, tags):
                 tags.append("item-unchanged")
                 # the property speaks of the spelling of values: compare the number tokens (an added FIX keyword for an
                 # auto-fixed (v,v,v) item or re-arranged parentheses are not a respelling; recorded in the distribution)
-                if (g["init"], g["low"], g["up"]) != (f["init"], f["low"], f["up"]):
+                gl = f["low"] if (g["low"] is None and o[0][1] == -INF) else g["low"]
+                gu = f["up"] if (g["up"] is None and o[0][2] == INF) else g["up"]
+                if (gl, gu) != (g["low"], g["up"]):
+                    tags.append("explicit-infinite-bound-dropped")
+                if (g["init"], gl, gu) != (f["init"], f["low"], f["up"]):
                     cls = "theta-unchanged-bound-respelled" if g["init"] == f["init"] else "theta-frame"
                     if f["inner_comment"] and not g["inner_comment"]:
                         cls = "theta-inner-comment-edit"
@@ -571,9 +598,9 @@ def _monitor_update(case, rec, facts, old, new, upd, drv, k, mon, tags):
                 tags.append("item-changed")
                 if o[0][0] == nw[0][0] and g["init"] != f["init"]:
                     mon.append({"cls": "theta-unchanged-init-respelled", "what": f"{f['text']!r} -> {g['text']!r}: init unchanged"})
-                if o[0][1] == nw[0][1] and f["low"] is not None and g["low"] != f["low"]:
+                if o[0][1] == nw[0][1] and f["low"] is not None and g["low"] != f["low"] and not (g["low"] is None and o[0][1] == -INF):
                     mon.append({"cls": "theta-unchanged-bound-respelled", "what": f"{f['text']!r} -> {g['text']!r}: lower bound {o[0][1]} unchanged"})
-                if o[0][2] == nw[0][2] and f["up"] is not None and g["up"] != f["up"]:
+                if o[0][2] == nw[0][2] and f["up"] is not None and g["up"] != f["up"] and not (g["up"] is None and o[0][2] == INF):
                     mon.append({"cls": "theta-unchanged-bound-respelled", "what": f"{f['text']!r} -> {g['text']!r}: upper bound {o[0][2]} unchanged"})
     return readback
 
@@ -627,31 +654,53 @@ def run_omega_case(case, drv):
             mv = [int(a) / int(b) for a, b in m[1]]
             if [sig(v) for v in mv] != [sig(float(v)) for v in inits]:
                 k.append(f"OmegaRecord.parse {case['rec']!r}: model {mv} code {list(map(float, inits))}")
-    # update with a new covariance matrix
-    newcov = case["newcov"]
-    ps = [P((v, 0.0, INF, fixed)) for v in newcov]
-    try:
-        upd = rec.update(ps)
-    except Exception as e:  # numpy LinAlgError etc.: not part of this comparison
-        tags.append("update-raises-" + type(e).__name__)
-        return {"k": k, "mon": mon, "tags": tags, "nontrivial": True}
-    raw2 = [float(str(node.subtree("init"))) for node in upd.root.subtrees("omega")]
-    if drv is not None and not chol:
-        m = drv.ask(["fromcov", sd, corr, case["size"], [fr(v) for v in newcov]])
-        if m[0] != "ok":
-            tags.append("fromcov-irrational")
-        else:
-            mv = [int(a) / int(b) for a, b in m[1]]
-            if [sig(v) for v in mv] != [sig(v) for v in raw2]:
-                k.append(f"OmegaRecord.update {case['rec']!r} -> {newcov}: model {mv} code {raw2}")
-    # monitor: read-back of the written block
-    try:
-        rr = create_record(case["rec"].split()[0] + str(upd.root))
-        (_, inits2, fixed2, _), = rr.parse()
-        if [sig(float(v)) for v in inits2] != [sig(v) for v in newcov] or fixed2 != fixed:
-            mon.append({"cls": "omega-block-update-readback", "what": f"{case['rec']!r} updated to {newcov} writes {str(upd.root)!r}, read back {list(map(float, inits2))}"})
-    except (lark_errors.LarkError, ModelSyntaxError) as e:
-        mon.append({"cls": "omega-block-update-unreadable", "what": f"{case['rec']!r} updated to {newcov} writes {str(upd.root)!r}: {type(e).__name__}"})
+    # successive updates: new covariance matrix (or the old one), fixedness from `fixseq`
+    key = case["rec"].split()[0]
+    cur = rec
+    cov_old = [float(v) for v in inits]
+    for step, newfix in enumerate(case.get("fixseq", [fixed])):
+        newcov = cov_old if (case.get("same_values") or step > 0) else case["newcov"]
+        cov_old = newcov
+        tags.append("op:block-" + ("fix" if newfix else "unfix"))
+        try:
+            upd = cur.update([P((v, 0.0, INF, newfix)) for v in newcov])
+        except Exception as e:  # numpy LinAlgError etc.: not part of this comparison
+            tags.append("update-raises-" + type(e).__name__)
+            break
+        raw2 = []
+        for node in upd.root.subtrees("omega"):
+            nrep = int(str(node.subtree("n").leaf("INT"))) if node.find("n") else 1
+            raw2 += [float(str(node.subtree("init")))] * nrep
+        if drv is not None and not chol:
+            if step == 0:
+                m = drv.ask(["fromcov", sd, corr, case["size"], [fr(v) for v in newcov]])
+                if m[0] == "ok":
+                    mv = [int(a) / int(b) for a, b in m[1]]
+                    if [sig(v) for v in mv] != [sig(v) for v in raw2]:
+                        k.append(f"OmegaRecord.update {case['rec']!r} -> {newcov}: model {mv} code {raw2}")
+            # token level: values spelled as the code spells them, FIX handling, xn split
+            vals = [U.oparam_wire(v, newfix) for v in U.block_raw_values(newcov, case["size"], sd, corr)]
+            m = drv.ask(["bupdate", U.brec_wire(cur.root), vals, bool(newfix)])
+            want = ["ok", U.norm(U.brec_wire(upd.root))]
+            if m != want:
+                k.append(f"OmegaRecord.update(BLOCK) {key + str(cur.root)!r} -> {newcov} fix={newfix}: model {_show(m)} code {_show(want)}")
+        # monitor: read-back of the written block (values and fixedness)
+        text = key + str(upd.root)
+        try:
+            rr = create_record(text)
+            (_, inits2, fixed2, _), = rr.parse()
+            if [sig(float(v)) for v in inits2] != [sig(v) for v in newcov]:
+                mon.append({"cls": "omega-block-update-readback", "what": f"{key + str(cur.root)!r} updated to {newcov} writes {text!r}, read back {list(map(float, inits2))}"})
+            if bool(fixed2) != bool(newfix):
+                mon.append({"cls": "omega-block-fix-readback", "what": f"{key + str(cur.root)!r} updated to fix={newfix} writes {text!r}, read back fix={fixed2}"})
+            if drv is not None:
+                m = drv.ask(["bfix", U.brec_wire(rr.root)])
+                if m != ("true" if fixed2 else "false"):
+                    k.append(f"_block_flags of {text!r}: model {m} code {fixed2}")
+        except (lark_errors.LarkError, ModelSyntaxError) as e:
+            mon.append({"cls": "omega-block-update-unreadable", "what": f"{key + str(cur.root)!r} updated to {newcov} fix={newfix} writes {text!r}: {type(e).__name__}"})
+            break
+        cur = upd
     return {"k": k, "mon": mon, "tags": tags, "nontrivial": True}
 
 
